@@ -50,7 +50,13 @@ def cases(rng, tier):
                 if len(live) >= 2:
                     g = rng.choice([("cx", []), ("rzz", [0.4]), ("swap", []), ("move", [])])
                     bases.append({"kind": "gate", "gate": g[0], "params": g[1]})
-                    instrs.insert(rng.randint(0, len(instrs)), {"name": "qpd_2q", "qubits": rng.sample(live, 2),
+                    qs2 = rng.sample(live, 2)
+                    if idle and rng.random() < 0.5:
+                        # the far end of the cut gate is a qubit that carries nothing else (in use all the same: no longer idle)
+                        far = rng.choice(idle)
+                        idle.remove(far)
+                        qs2[rng.randrange(2)] = far
+                    instrs.insert(rng.randint(0, len(instrs)), {"name": "qpd_2q", "qubits": qs2,
                                                                "basis": len(bases) - 1, "label": rng.choice([None, "pre"])})
         if big3 and mode < 0.6:
             mode = 0.1 if kind == "separate" else 0.2   # mostly automatic labels for the three-qubit family
